@@ -21,22 +21,23 @@ CONSTANTS Kind,      \* "flat" | "hnsw" | "ivf" | "pq" | "ivfpq"
           HnswExact, \* hnsw: results are exact while at most this many rows are resident (2M when ef >= 2M; 0 = never claimed)
           ReAddOK    \* TRUE: re-adding a tombstoned id replaces the stale row (to-be); FALSE: the stale tombstone hides it (R1)
 
-VARIABLES rows, dead, trained
-vvars == <<rows, dead, trained>>
+VARIABLES rows, dead, trained,
+          hw     \* largest number of resident rows since the index was last empty (HNSW exactness regime)
+vvars == <<rows, dead, trained, hw>>
 
 NeedsTraining == Kind \in {"ivf", "pq", "ivfpq"}
 Quantised == Kind \in {"pq", "ivfpq"}
 Clustered == Kind \in {"ivf", "ivfpq"}
-Exhaustive == Kind # "hnsw" \/ Len(rows) <= HnswExact
+Exhaustive == Kind # "hnsw" \/ hw <= HnswExact
 
 Resident == {rows[i].id : i \in DOMAIN rows}
 LiveRows == {r \in RangeOf(rows) : r.id \notin dead}
 LiveIds == {r.id : r \in LiveRows}
 
-VInit == rows = <<>> /\ dead = {} /\ trained = ~NeedsTraining
+VInit == rows = <<>> /\ dead = {} /\ trained = ~NeedsTraining /\ hw = 0
 
 \* ------------------------------------------------------------- actions
-Train == /\ NeedsTraining /\ trained' = TRUE /\ UNCHANGED <<rows, dead>>
+Train == /\ NeedsTraining /\ trained' = TRUE /\ UNCHANGED <<rows, dead, hw>>
 
 \* nearest-centroid rule: the stored cluster is a minimiser of VC[v] (ties within EpsC either way)
 ClusterOK(v, c) == ~Clustered \/ (c \in 1..NList /\ \A d \in 1..NList : VC[v][c] <= VC[v][d] + EpsC)
@@ -57,16 +58,18 @@ Add(id, v, c) ==
           /\ dead' = dead \ {id}
      ELSE /\ rows' = Append(rows, [id |-> id, v |-> v, c |-> c])
           /\ dead' = dead
+  /\ hw' = Max2(hw, Len(rows'))
   /\ UNCHANGED trained
 
 \* a rejected add (untrained index, wrong dimension, zero vector under cosine) changes nothing
 AddRejected == UNCHANGED vvars
 
 CanRemove(id) == id \in Resident /\ id \notin dead
-Remove(id) == /\ CanRemove(id) /\ dead' = dead \cup {id} /\ UNCHANGED <<rows, trained>>
+Remove(id) == /\ CanRemove(id) /\ dead' = dead \cup {id} /\ UNCHANGED <<rows, trained, hw>>
 RemoveRejected(id) == ~CanRemove(id) /\ UNCHANGED vvars
 
 Flush == /\ rows' = SelectSeq(rows, LAMBDA r : r.id \notin dead) /\ dead' = {} /\ UNCHANGED trained
+         /\ hw' = IF rows' = <<>> THEN 0 ELSE hw
 
 \* WriteTo = Flush then serialise; ReadFrom into a fresh index gives the flushed state
 Reload == Flush
